@@ -10,7 +10,9 @@
 //!               costs: stored i32 totals, back-pointers, EOS, overflow outcome;
 //!   op `limits` `InputBuffer::start_build` / `with_editor` (commit) at the 49149 / 65535 byte limits;
 //!   op `access` begin/end/begin_c/end_c/surface of every morpheme and of its A and B splits, recomputed by the
-//!               model from the dumped offset tables and the split units' head-word lengths.
+//!               model from the dumped offset tables and the split units' head-word lengths; the token
+//!               `split=cur|d6fix` tells the model which `NodeSplitIterator::next` the linked tree has
+//!               (probe of analysis/node.rs for the D6 clamp), so the same framework commit ties both trees.
 use crate::common::*;
 use crate::dict::*;
 use crate::world::*;
@@ -30,7 +32,7 @@ type D = Arc<JapaneseDictionary>;
 const MAX_LENGTH: usize = 49149;
 const REALLY_MAX: usize = 65535;
 const CASES_PER_WORLD: usize = 24;
-const N_DIRECTED: usize = 32;
+const N_DIRECTED: usize = 34;
 /// directed case that does not terminate on the unchanged tree: run last
 const HANG_CASE: usize = 29;
 
@@ -340,6 +342,16 @@ fn directed(idx: usize) -> Option<Directed> {
             let dic = dict_from(&tag, &rows, "1 1\n0 0 10\n", &[], &[simple_oov_json(0, 0, 30000)], &[]);
             if idx == 30 { mk("nul-before-word-A", dic, "\u{0}あい".into(), Mode::A, false) } else { mk("nul-before-word-C", dic, "\u{0}あい".into(), Mode::C, false) }
         }
+        // D6, second shape (regression cases of the repair): a unit whose key length ends INSIDE a character of the
+        // parent (`あ京` with A-split `a/京`: 1 byte into `あ`); the repaired iterator snaps the boundary back to the
+        // start of the character (empty first unit), without the snap surface() trips 'off char boundary'
+        32 | 33 => {
+            let mut rows = vec![Row::simple("a", 0, 0, 100, NOUN), Row::simple("京", 0, 0, 100, NOUN), Row::simple("あ京", 0, 0, 50, NOUN)];
+            rows[2].mode = 'C';
+            rows[2].split_a = "0/1".into();
+            let dic = dict_from(&tag, &rows, "1 1\n0 0 10\n", &[], &[simple_oov_json(0, 0, 30000)], &[]);
+            if idx == 32 { mk("d6-snap-A", dic, "あ京".into(), Mode::A, false) } else { mk("d6-snap-C", dic, "xあ京".into(), Mode::C, false) }
+        }
         _ => None,
     }
 }
@@ -495,12 +507,26 @@ fn judge(run: &mut Run, idx: usize, ex: &Expect, text: &str, mode: Mode, ana: &A
     }
 }
 
+/// which instance of the model's split iterator mirrors the tree: does `NodeSplitIterator::next` clamp the
+/// unit end to the parent's end (commit `fix: keep split units inside their parent token`, D6)?  Textual probe
+/// of the linked source, as C07/C09 do.  An unreadable source selects the unrepaired variant.
+fn impl_d6_fixed() -> bool {
+    static P: std::sync::OnceLock<bool> = std::sync::OnceLock::new();
+    *P.get_or_init(|| {
+        let p = format!("{}/src/analysis/node.rs", crate::c07::repo_sudachi_dir());
+        std::fs::read_to_string(p).map(|s| s.contains(".min(self.byte_end as usize)")).unwrap_or(false)
+    })
+}
+
+fn split_variant() -> &'static str { if impl_d6_fixed() { "d6fix" } else { "cur" } }
+
 fn access_line(run: &mut Run, idx: usize, w: &Whole) {
     if w.outcome != "ok" || w.morphs.is_empty() || w.orig.len() > 2000 { return; }
     if w.morphs.iter().any(|m| m.units_a.is_none() || m.units_b.is_none()) { run.bump("access:units-unreadable"); return; }
     let u = |v: &Option<Vec<usize>>| { let v = v.as_ref().unwrap(); if v.is_empty() { "-".to_string() } else { join(v.iter(), "+") } };
-    let payload = format!("orig={} cur={} m2o={} nodes={}", hex(w.orig.as_bytes()), hex(w.cur.as_bytes()), join(w.m2o.iter(), ","),
-        w.morphs.iter().map(|m| format!("{}:{}:{}:{}:{}:{}", m.node.0, m.node.1, m.node.2, m.node.3, u(&m.units_a), u(&m.units_b))).collect::<Vec<_>>().join(";"));
+    let payload = format!("orig={} cur={} m2o={} nodes={} split={}", hex(w.orig.as_bytes()), hex(w.cur.as_bytes()), join(w.m2o.iter(), ","),
+        w.morphs.iter().map(|m| format!("{}:{}:{}:{}:{}:{}", m.node.0, m.node.1, m.node.2, m.node.3, u(&m.units_a), u(&m.units_b))).collect::<Vec<_>>().join(";"),
+        split_variant());
     let ans = format!("ok {}", w.morphs.iter().map(|m| format!("{}/{}/{}", m.p.acc, m.split_a, m.split_b)).collect::<Vec<_>>().join(";"));
     let nontrivial = w.cur != w.orig || w.morphs.iter().any(|m| m.split_a != "-" || m.split_b != "-");
     if w.morphs.iter().any(|m| m.split_a != "-" || m.split_b != "-") { run.bump("access:with-splits"); }
@@ -714,6 +740,8 @@ fn limits_case(run: &mut Run, idx: usize, rng: &mut Rng, directed: Option<usize>
 // ------------------------------------------------------------------------------------------------
 
 pub fn run(run: &mut Run) {
+    run.extra.insert("model_variant_split".into(), serde_json::json!(split_variant()));
+    run.bump(&format!("model-variant:split={}", split_variant()));
     run.rule = "directed: D7 chains (32768/32769/40000 one-character words of cost 32767, connection 32767), total = i32::MAX sentinel, D6 split longer \
 than parent, regex matching the empty string, commit running length, 49148/49149/49150-byte inputs, NFKC x18 / x4 expansions crossing 65535 bytes, NUL/controls/ZWJ, \
 class runs, JoinNumeric hang; generated: random worlds (all plugin stacks, with/without fallback, i16-extreme costs) x adversarial texts (specials, 60-70 class runs, \
